@@ -31,6 +31,8 @@ NonStrings == {NoneV, IntV(1), IntV(0), BoolV(TRUE), FloatH(3), ListV(<<>>), Dic
                BytesV(<<97>>), ObjV("set")}
 
 StrCands == {StrV(s) : s \in SeqsUpTo({"a", "A", " ", "b"}, IF Big THEN 4 ELSE 3)}
+            \* characters whose upper / lower case is longer than they are
+            \cup {StrV(s) : s \in {<<"&szlig;">>, <<"a", "&szlig;">>, <<"&Idot;">>, <<"&Idot;", "b">>, <<"&napos;", "a">>}}
 
 StringFamily ==
     {With(StringF, [minlen |-> mn, maxlen |-> mx, regex |-> rx, choices |-> ch, tcase |-> tc,
